@@ -63,7 +63,7 @@ func runC17(r *core.Run, tier string) {
 		r.Inconclusive(err.Error())
 		return
 	}
-	n := 300
+	n := 500
 	if tier == "thorough" {
 		n = 6000
 	}
